@@ -186,6 +186,31 @@ _p('C13', 'model_checking', 'DESIGN.md 5/C13',
     "cstl_slist_concat(l, l) is outside the domain (precondition)"],
    [NORM])
 
+CHAIN = "chain-level (element-level) statements are bounded: tables of 1..4 buckets, 4 resident elements with keys 0,1,3,1 (duplicates), hash functions k%m, (k/2)%m, 0; every pair of geometries for a pending rehash, interleaved keyed operations, a second resize while pending, forced rehash, shrink_to_fit, swap"
+_p('C03', 'model_checking', 'DESIGN.md 5/C03',
+   [BOUNDED_ASSUME, CALLBACK_ASSUME, HIST_ASSUME, CHAIN, SIZE_ASSUME,
+    "proved (unbounded, every table size): the flat invariant and the sweep invariant of the bucket array are preserved by get_bucket / rehash / resize / shrink_to_fit / set_capacity; every bucket-array access is in bounds; cstl_clean_bucket is replaced by its flat contract there (bounded-checked on chains of 1..3 nodes)"],
+   [NORM])
+_p('C04', 'model_checking', 'DESIGN.md 5/C04',
+   [BOUNDED_ASSUME, CALLBACK_ASSUME, CHAIN,
+    "proved (unbounded): the bucket walk of foreach / foreach_const / clear hands every bucket of the span max(count, pending count) to the chain walk, in order, and stops at the first non-zero result; clear leaves the table equal to its initialised state. The chain walk itself (each element of a bucket exactly once, successor read before the callback) is bounded"],
+   [NORM])
+_p('C08', 'model_checking', 'DESIGN.md 5/C08',
+   [BOUNDED_ASSUME, CALLBACK_ASSUME, HIST_ASSUME,
+    "scope: every script with <= 3 (thorough: 4) state-changing operations over {insert K[i], insert through a second key pointer K2[i], erase by key, erase by iterator, find} on keys 0..2, any number of non-changing operations interleaved (their no-op-ness is checked bit for bit); clear (with and without callback) on maps from every insertion sequence of <= 4 keys; drain in all 24 erase orders; allocation failure at every insert (scripted allocator)",
+    "map nodes come from a static arena (or real malloc with --memory-leak-check in the clear groups); red-black and ordering invariants of the underlying tree are re-checked after every operation"],
+   [NORM])
+_p('C15', 'model_checking', 'DESIGN.md 5/C15',
+   [BOUNDED_ASSUME, CALLBACK_ASSUME,
+    "bounded per container, with callbacks that poison / overwrite / free the element: dlist (lengths 0..5), slist (0..5), bintree and rbtree (every tree from insertion sequences of length <= 3, thorough 4), heap (sizes 0..7), map (<= 4 keys); container equals a freshly initialised one afterwards and is refilled",
+    "proved: cstl_vector_clear runs the destructor once per element downwards and releases the storage"],
+   [NORM])
+_p('C16', 'model_checking', 'DESIGN.md 5/C16',
+   [LIBC_ASSUME, REALLOC_NOTE, SIZE_ASSUME, BOUNDED_ASSUME,
+    "proved under --malloc-may-fail --malloc-fail-null (every allocation may fail independently, so every subset): vector set_capacity/reserve/shrink_to_fit/resize, string __resize/prep_insert, hash set_capacity/resize/shrink_to_fit, unique_ptr_alloc, shared_ptr_alloc (+ closed scenario with leak audit), array alloc/set: the operation completes or fails the documented way and the representation invariant (= precondition of every other contract) holds afterwards",
+    "bounded: map insert with the allocation of each insert failing in turn (scripted allocator): -1, end iterator, state bit-identical, later operations work, no leak"],
+   [NORM])
+
 NOT_APPLICABLE = {
     'C06': "every-thread-interleaving refcounting: CBMC's contract instrumentation (DFCC) is sequential; a function contract relates one call's pre- and post-state and cannot quantify over schedules. The sequential bookkeeping is covered by C05.",
     'C18': "header/link usability is a property of preprocessor and linker configurations (symbol multiplicity across translation units); no function contract expresses it and goto-cc is not the project's linker.",
@@ -193,6 +218,11 @@ NOT_APPLICABLE = {
 
 BTECH = "contract-based verification with CBMC 6.11: the representation invariant and abstract view asserted around the real operations on concretely enumerated small structures (bounded, --unwinding-assertions), DFCC step contracts where built"
 TEXT = {
+    'C03': ("Array level proved for every table size (sweep invariant with a ghost bucket index, all accesses in bounds, completion only after the last old bucket); element level bounded: after every operation of every scenario in scope each live element is found by key, erased ones are not, same-key elements are offered at most once, size matches, every node sits in a bucket allowed by the old or pending geometry.", BTECH + "; DFCC function + loop contracts for the bucket array"),
+    'C04': ("Bucket coverage of foreach/foreach_const/clear proved for every table state incl. pending grow/shrink; per-element exactly-once, early stop, erasing callback and reuse after clear are bounded over ten table states.", BTECH + "; DFCC function + loop contracts for the bucket walk"),
+    'C08': ("Bounded: a reference model (present / stored key / stored value per key) is compared with the map after every operation of every script in scope, including duplicate inserts through a different key pointer, erase by iterator, clear with leak / double-free / write-after-free audit.", BTECH),
+    'C15': ("Bounded per container: the clear callback poisons (or frees) each element; the harness asserts exactly one call per contained element, none for anything else, no access afterwards (CBMC pointer checks / ASan in the native run), container equal to a fresh one and reusable.", BTECH),
+    'C16': ("Every allocating operation is verified under CBMC's malloc-may-fail mode, where each allocation fails independently, so all failure subsets are covered by one proof per operation: documented failure behaviour, state unchanged, invariant intact, nothing freed twice or leaked (frees clauses, was_freed, leak audit in the closed scenario); map insert by scripted failures.", "contract-based deductive verification: CBMC 6.11 DFCC contracts under --malloc-may-fail; bounded scripted-allocator groups for the map"),
     'C07': ("cstl_fls and the heap's index arithmetic are proved for all inputs; the exchange step promote_child is proved on every neighbourhood; push/pop/get/clear are checked against a multiset model with completeness, heap order and back-links re-established by an independent walker after every operation on all heaps in the stated scope.", BTECH),
     'C13': ("Step contracts prove that insert_after/erase_after relink exactly the named nodes and move the tail pointer exactly when the last node is touched; bounded checks compare every list of length 0..5 with a reference sequence after every public operation and verify each time that push_back appends after the true last element.", BTECH),
     'C01': ("Bounded whole-operation contract checks: CBMC executes the real insert/find/erase/foreach/clear of bintree.c and rbtree.c on every tree in the stated scope and an independent walker re-establishes 'exactly the inserted-minus-erased elements, in order, each linked once, parent links consistent, size equal' after every operation; find/erase results are checked against the membership view; traversal bracket structure, order and early stop are checked at every visit index. Nothing is proved beyond the scope.", BTECH),
